@@ -18,7 +18,7 @@ THEOREMS = ['PyDBML.C14.comment_lines_prefixed', 'PyDBML.C14.comment_ends_with_n
             'PyDBML.C14.splitNL_joinNL', 'PyDBML.C02.flags_document_roundtrip_partial', 'PyDBML.C02.flags_refs_roundtrip_partial', 'PyDBML.C02.flags_tables_roundtrip_partial',
             'PyDBML.C02.cBefore_comment', 'PyDBML.C02.cBefore_nl_comment', 'PyDBML.C02.comment_line_ok', 'PyDBML.C02.optComment_eq']
 MODULES = ['PyDBMLProofs.Props.C14', 'PyDBMLProofs.Props.C02Comment', 'PyDBMLProofs.Props.C02FormTables', 'PyDBMLProofs.Props.C02FormRefs',
-           'PyDBMLProofs.Props.C02FlagsTables', 'PyDBMLProofs.Props.C02Doc', 'PyDBMLProofs.Props.C02DocMore', 'PyDBMLProofs.Props.C02Group', 'PyDBMLProofs.Props.C02Inline', 'PyDBMLProofs.Props.C02Project', 'PyDBMLProofs.Props.C02EnumNote', 'PyDBMLProofs.Props.C02Document']
+           'PyDBMLProofs.Props.C02FlagsTables', 'PyDBMLProofs.Props.C02Doc', 'PyDBMLProofs.Props.C02DocMore', 'PyDBMLProofs.Props.C02Group', 'PyDBMLProofs.Props.C02Inline', 'PyDBMLProofs.Props.C02Project', 'PyDBMLProofs.Props.C02EnumNote', 'PyDBMLProofs.Props.C02TableNote', 'PyDBMLProofs.Props.C02Document']
 
 
 def comments_of(d):
